@@ -1615,9 +1615,28 @@ class Evaluator:
             return Evaluator._ite_leaves(t[2]) + Evaluator._ite_leaves(t[3])
         return [t]
 
+    def _emit_lambda_calls(self, fn, arg_terms, live, n):
+        """the calls a local function makes, re-emitted where it is applied (so that call-site rules see them)"""
+        if fn[0] != "lambda" or fn[1] not in self.lambdas:
+            return
+        ls = self.lambdas[fn[1]]
+        if len(ls.params) != len(arg_terms):
+            return
+        mp = {("param", p): a for p, a in zip(ls.params, arg_terms)}
+        for e in ls.events:
+            if e.kind == "call" and not e.loops:
+                ev = self.emit("call", AND(live, subst(e.live, mp)), self._fold_records(fold_sub(subst(e.term, mp))), n)
+                ev.kw_order = getattr(e, "kw_order", [])  # type: ignore[attr-defined]
+
     def _apply_in_loop(self, fn, el, lid, live, n):
         """fn(el) evaluated once per element of loop `lid`: the call is an event of that loop (as in a comprehension)"""
         v = self._apply_fn(fn, [el])
+        if fn[0] == "lambda" and not (v[0] == "call" and v[1] == fn):
+            self.loop_stack.append(lid)
+            try:
+                self._emit_lambda_calls(fn, [el], AND(live, ("inloop", lid)), n)
+            finally:
+                self.loop_stack.pop()
         if v[0] == "call" and v[1] == fn:
             self.loop_stack.append(lid)
             try:
@@ -1753,6 +1772,33 @@ class Evaluator:
             cond = el if args[0] == NONE else self._apply_in_loop(args[0], self._zip_elem(el, args[1]), lid, live, n)
             self.loops[lid].conds = (cond,)
             return ("comp", "gen", el, ((lid, args[1], (cond,)),))
+        # functools.partial(helper, a, k=v) of a new helper function is the local function `lambda rest: helper(a, rest, k=v)`
+        if f == ("ext", "functools.partial") and args and not spreads and not any(a[0] == "star" for a in args) \
+                and self._inline_target(args[0]) is not None and len(self.inline_stack) < 4:
+            module_, node_, qual_, cls_, selfterm_ = self._inline_target(args[0])
+            if selfterm_ is None:
+                try:
+                    sub = Evaluator(self.index, module_, node_, qual_, cls_)
+                    sub.inline_stack = self.inline_stack + (qual_,)
+                    sub._n = self._n + 1000
+                    cs = sub.run()
+                except (AnalysisError, RecursionError):
+                    cs = None
+                if cs is not None and not cs.vararg and not cs.kwarg and len(args) - 1 <= len(cs.params) \
+                        and all(k in cs.params[len(args) - 1:] for k, _ in named):
+                    bound = {("param", p_): a_ for p_, a_ in zip(cs.params, args[1:])}
+                    bound.update({("param", k): v for k, v in named})
+                    rest = [p_ for p_ in cs.params if ("param", p_) not in bound]
+
+                    def inst_(t):
+                        return self._fold_records(fold_sub(subst(t, bound)))
+
+                    ls = _bind_summary(cs, inst_)
+                    ls.params = rest
+                    ls.defaults = {k: v for k, v in ls.defaults.items() if k in rest}
+                    lid = self.fresh("F")
+                    self.lambdas[lid] = ls
+                    return ("lambda", lid)
         # functools.partial(g, a, k=v)(b) is g(a, b, k=v)
         if f[0] == "call" and f[1] == ("ext", "functools.partial") and f[2]:
             spreads = [kv for kv in f[3] if kv[0] == "**"] + list(spreads)
@@ -2383,6 +2429,24 @@ def _rename_ids(t, idmap: Dict[str, str], tag: str):
         gens = tuple((idmap.get(lid, lid), _rename_ids(it, idmap, tag), _rename_ids(cs, idmap, tag)) for lid, it, cs in t[3])
         return ("comp", t[1], _rename_ids(t[2], idmap, tag), gens)
     return tuple(_rename_ids(c, idmap, tag) if isinstance(c, tuple) else c for c in t)
+
+
+def _bind_summary(cs: "Summary", inst) -> "Summary":
+    """A copy of a summary with `inst` applied to every term (used to bind some parameters: functools.partial)."""
+    evs = []
+    for e in cs.events:
+        ne = Event(e.kind, inst(e.live), inst(e.term), e.node, e.loops, e.idx, e.handlers, e.in_handler)
+        for a in ("kw_order", "inlined_from"):
+            if hasattr(e, a):
+                setattr(ne, a, getattr(e, a))
+        evs.append(ne)
+    loops = {}
+    for lid, li in cs.loops.items():
+        nl = LoopInfo(li.id, li.kind, inst(li.iter), li.node, li.parent, li.target_text, tuple(inst(c) for c in li.conds), li.assigned, li.has_else)
+        loops[lid] = nl
+    return Summary(cs.qual, cs.module, cs.node, list(cs.params), {k: inst(v) for k, v in cs.defaults.items()}, cs.annotations, evs, loops,
+                   cs.tries, {k: inst(v) for k, v in cs.env.items()}, inst(cs.fall_live),
+                   {k: _bind_summary(v, inst) for k, v in cs.lambdas.items()}, cs.nested, cs.is_generator, cs.kwarg, cs.vararg)
 
 
 def _inst_summary(ls: "Summary", inst) -> "Summary":
